@@ -189,6 +189,94 @@ def rule_tile(run):
         run.check(ok, 'mulgrid.split_column :: pieces %r + %r' % (new, rest), msg, where=sc.where())
 
 
+def _consumer_model(fi):
+    """How refine() uses what transition_type returns, decided by interpreting its own statements on a model column:
+    (1) the list of refined sides handed to transition_type is the increasing list of the sides whose node pair is in the
+    mid-node dictionary, for every subset of sides of a 3- and 4-sided column; (2) the entry selected is
+    transition_column[nn][nrefined, irange]; (3) a table vertex v is turned into node (istart + v) mod nn, a pair (a, b) into the
+    mid node of the side between nodes istart+a and istart+b, 'c' into the centre node.  Returns (True, evidence) /
+    (False, what differs) / (None, why it could not be interpreted)."""
+    from ..consteval import Obj
+    from ..core import parent_map
+    pm = parent_map(fi.node)
+    tts = [st for st in walk_no_nested(fi.node) if isinstance(st, ast.Assign) and isinstance(st.value, ast.Call) and call_name(st.value) == 'transition_type'
+           and isinstance(st.targets[0], ast.Tuple) and len(st.targets[0].elts) == 3 and all(isinstance(e, ast.Name) for e in st.targets[0].elts)
+           and len(st.value.args) == 2 and isinstance(st.value.args[1], ast.Name)]
+    if len(tts) != 1: return None, 'call of transition_type with a 3-name target not found exactly once'
+    tt = tts[0]
+    NR, IS, IR = [e.id for e in tt.targets[0].elts]
+    L = tt.value.args[1].id
+    # the loop over columns that contains it, and its variable
+    cur, colloop = tt, None
+    while cur in pm:
+        cur = pm[cur]
+        if isinstance(cur, ast.For) and isinstance(cur.target, ast.Name): colloop = cur; break
+    if colloop is None or tt not in colloop.body: return None, 'column loop not found'
+    C = colloop.target.id
+    outer = [n for n in colloop.body if isinstance(n, ast.For) and isinstance(n.iter, ast.Subscript) and isinstance(n.iter.value, ast.Subscript)
+             and norm(n.iter.value.value) == 'transition_column' and isinstance(n.target, ast.Name)]
+    if len(outer) != 1: return None, 'loop over the selected table entry not found'
+    sel = outer[0].iter
+    if not (isinstance(sel.slice, ast.Tuple) and [norm(e) for e in sel.slice.elts] == [NR, IR]):
+        return False, 'the table entry is selected by `%s`, not by (%s, %s) as returned by transition_type' % (norm(sel.slice), NR, IR)
+    inner = [n for n in outer[0].body if isinstance(n, ast.For) and isinstance(n.iter, ast.Name) and n.iter.id == outer[0].target.id]
+    if len(inner) != 1: return None, 'loop over the vertices of a sub-column not found'
+    apps = [c for c in ast.walk(inner[0]) if isinstance(c, ast.Call) and isinstance(c.func, ast.Attribute) and c.func.attr == 'append' and isinstance(c.func.value, ast.Name)]
+    if len(apps) != 1: return None, 'node list of the sub-column not found'
+    NV = apps[0].func.value.id
+    extra = {'frozenset': frozenset, 'isinstance': isinstance}
+    pre = colloop.body[:colloop.body.index(tt)]
+    nsub = 0
+    try:
+        for nn in (3, 4):
+            nodes = []
+            for i in range(nn):
+                o = Obj(); o.attrs['name'] = 'n%d' % i; nodes.append(o)
+            col = Obj(); col.attrs.update(node=nodes, num_nodes=nn, name='colX')
+            allmid = dict((frozenset((nodes[i].attrs['name'], nodes[j].attrs['name'])), ('mid', i, j)) for i in range(nn) for j in range(nn) if i != j)
+            # (1)
+            for r in range(0, nn + 1):
+                for sides in itertools.combinations(range(nn), r):
+                    nsub += 1
+                    side = dict((frozenset((nodes[i].attrs['name'], nodes[(i + 1) % nn].attrs['name'])), 'm') for i in sides)
+                    it = Interp({C: col, 'sidenodes': side}, extra=extra)
+                    it.block(pre)
+                    got = it.env.get(L)
+                    if got != list(sides):
+                        return False, ('for a %d-sided column whose refined sides are %s the list handed to transition_type is %r: the helper assumes '
+                                       'the refined sides in increasing order' % (nn, list(sides), got))
+            # (3)
+            sample = [0, 1, nn - 1, (0, 1), (1, 2), (nn - 1, 0), 'c']
+            for istart in range(nn):
+                it = Interp({C: col, 'sidenodes': allmid, 'centrenodes': {'colX': 'C'}, IS: istart, outer[0].target.id: sample, NV: []}, extra=extra)
+                it.block(pre[:0])
+                env0 = Interp({C: col, 'sidenodes': {}}, extra=extra); env0.block(pre)
+                for k, v in env0.env.items():
+                    if k not in it.env: it.env[k] = v
+                # simple local bindings made in the entry loop before the vertex loop (a hoisted node count); statements that
+                # reach outside the model (naming the new column) are not needed for the node list and are skipped
+                for st in outer[0].body[:outer[0].body.index(inner[0])]:
+                    if isinstance(st, ast.Assign) and len(st.targets) == 1 and isinstance(st.targets[0], ast.Name) and st.targets[0].id != NV:
+                        try: it.stmt(st)
+                        except AnalysisError: pass
+                it.stmt(inner[0])
+                got = it.env[NV]
+                want = []
+                for v in sample:
+                    if isinstance(v, int): want.append(nodes[(istart + v) % nn])
+                    elif v == 'c': want.append('C')
+                    else: want.append(allmid[frozenset(nodes[(istart + i) % nn].attrs['name'] for i in v)])
+                if len(got) != len(want) or any(not (g is w or g == w) for g, w in zip(got, want)):
+                    bad = [sample[i] for i in range(min(len(got), len(want))) if not (got[i] is want[i] or got[i] == want[i])]
+                    return False, ('with start index %d on a %d-sided column the table vertices %s are not turned into node (istart + v) mod nn / the mid node '
+                                   'of side (istart + a, istart + b) / the centre node' % (istart, nn, bad or 'list length'))
+    except AnalysisError as e:
+        return None, 'statements left the constant-evaluation whitelist: %s' % e
+    except (KeyError, IndexError, TypeError) as e:
+        return None, 'model evaluation failed: %r' % (e,)
+    return True, {'side_subsets': nsub, 'roles': {'nrefined': NR, 'istart': IS, 'irange': IR, 'sides': L, 'column': C, 'nodes': NV}}
+
+
 def rule_dispatch(run):
     run.rule('DISPATCH', 'transition_type maps every refined-side subset to a table key, and the entry it '
              'selects refines exactly the refined sides (exhaustive over the finite input space)', floor=22)
@@ -197,13 +285,14 @@ def rule_dispatch(run):
     tt = prog.nested(fi, 'transition_type')
     # the consumer: n = col.node[(istart + vert) % nn]; sidenodes[frozenset(col.node[(istart + i) % nn].name for i in vert)]
     txt = norm(fi.node)
-    cons = 'n = col.node[(istart + vert) % nn]' in txt and \
-        'sidenodes[frozenset([col.node[(istart + i) % nn].name for i in vert])]' in txt and \
-        'nrefined, istart, irange = transition_type(nn, refined_sides)' in txt and \
-        'transition_column[nn][nrefined, irange]' in txt
-    if not cons:
-        run.unknown('mulgrid.refine :: table consumer', 'use of (istart, irange) not recognised', where=fi.where())
+    cons, why = _consumer_model(fi)
+    if cons is None:
+        run.unknown('mulgrid.refine :: table consumer', 'use of (istart, irange) not recognised: %s' % why, where=fi.where())
         return
+    if cons is False:
+        run.violated('mulgrid.refine :: table consumer', why, where=fi.where(), robust=True)
+        return
+    run.ok('mulgrid.refine :: table consumer', why, where=fi.where())
     ncase = 0
     for nn in (3, 4):
         for r in range(1, nn + 1):
@@ -235,8 +324,7 @@ def rule_dispatch(run):
     run.count('side_subsets', ncase)
     run.trust('whitelist interpreter (consteval.py) = exact constant propagation of the pure integer helper transition_type')
     # refined_sides is built in increasing side order (what the helper assumes)
-    run.shape('for i, corner in enumerate(col.node): if frozenset((corner.name, col.node[(i + 1) % nn].name)) in sidenodes: refined_sides.append(i)' in txt,
-              'mulgrid.refine :: refined_sides in increasing order', 'construction of refined_sides not recognised', where=fi.where())
+    # (decided by the consumer model above: the list handed to transition_type is interpreted for every subset of sides)
     # centre node created exactly for the entries that use 'c'
     need_c = sorted((nn, k) for nn in tab for k in tab[nn] if any('c' in p for p in tab[nn][k]))
     # evaluate the creation condition over all table keys by constant propagation
@@ -278,11 +366,27 @@ def rule_decomp_dispatch(run):
     # the index helpers the dispatch uses are what the model below assumes
     im = prog.func('mulgrids.column.index_minus')
     idst = prog.func('mulgrids.column.index_dist')
-    t1, t2 = norm(im.node), norm(idst.node)
-    run.shape(cnorm_block('result = i - d\nif result < 0: result += self.num_nodes\nreturn result') in t1, 'column.index_minus :: (i - d) mod n',
-              'index_minus not recognised', where=im.where())
-    run.shape(cnorm_block('d = abs(i1 - i2)\nif 2 * d > self.num_nodes: d = self.num_nodes - d\nreturn d') in t2, 'column.index_dist :: cyclic distance',
-              'index_dist not recognised', where=idst.where())
+    # decided by interpreting each helper's own body over every (index, offset) pair of every column size the dispatch handles
+    ip = prog.func('mulgrids.column.index_plus')
+    model = {'index_minus': lambda i, d, n: (i - d) % n, 'index_plus': lambda i, d, n: (i + d) % n,
+             'index_dist': lambda a, b, n: min(abs(a - b), n - abs(a - b))}
+    for hname, hfi, what in (('index_minus', im, '(i - d) mod n'), ('index_plus', ip, '(i + d) mod n'), ('index_dist', idst, 'cyclic distance')):
+        hk = 'column.%s :: %s for every index and offset of 3..9-sided columns' % (hname, what)
+        bad = None
+        try:
+            for n_ in range(3, 10):
+                selfo = Obj(); selfo.attrs['num_nodes'] = n_
+                for a_ in range(n_):
+                    for b_ in range(n_ + 1 if hname != 'index_dist' else n_):
+                        got = Interp({'abs': abs, 'min': min, 'max': max}).call_function(hfi.node, [selfo, a_, b_])
+                        if got != model[hname](a_, b_, n_) and bad is None: bad = (n_, a_, b_, got, model[hname](a_, b_, n_))
+            if bad is None: run.ok(hk, where=hfi.where())
+            else:
+                run.violated(hk, 'for a %d-sided column %s(%d, %d) gives %r, not %r: decompose_column starts its tiling table at the wrong node '
+                             'and produces a zero-area triangle with a hanging mid-side node' % (bad[0], hname, bad[1], bad[2], bad[3], bad[4]),
+                             where=hfi.where(), robust=True)
+        except AnalysisError as e:
+            run.unknown(hk, 'helper left the constant-evaluation whitelist: %s' % e, where=hfi.where())
     # find the branch of each (nn, ns) case
     branches = {}
 
@@ -474,12 +578,19 @@ def rule_inherit(run):
             s = kw.get('surface')
             if s is None and len(c.args) >= 4: s = c.args[3]
             key = 'mulgrid.%s :: column() #%d surface' % (m, i)
-            if s is not None and norm(s) == 'col.surface':
-                run.ok(key, where=fi.where(c))
-            else:
+            # through the locals it may be held in; the parent is a column the function was given or is looping over
+            rs = roles.inline_locals(s, fi.node.body) if s is not None else None
+            loopvars = set(l.target.id for l in ast.walk(fi.node) if isinstance(l, ast.For) and isinstance(l.target, ast.Name))
+            given = set(fi.params) | loopvars | set(nm for nm, v, st in roles.assignments(fi.node) if isinstance(v, ast.Subscript) and norm(v.value) == 'self.column')
+            if rs is not None and isinstance(rs, ast.Attribute) and rs.attr == 'surface' and \
+               ((isinstance(rs.value, ast.Name) and rs.value.id in given) or (isinstance(rs.value, ast.Subscript) and norm(rs.value.value) == 'self.column')):
+                run.ok(key, norm(rs), where=fi.where(c))
+            elif rs is None or isinstance(rs, ast.Constant) or (isinstance(rs, ast.Attribute) and rs.attr != 'surface') or isinstance(rs, ast.BoolOp) \
+                    or norm(s) == norm(rs):
                 run.violated(key, 'new column is built with surface=%s instead of the parent\'s surface: volume above the '
                              'default surface is lost or invented' % (norm(s) if s is not None else 'None (default)'),
                              where=fi.where(c))
+            else: run.unknown(key, 'surface argument `%s`' % norm(rs), where=fi.where(c))
 
 
 def rule_part(run):
@@ -523,10 +634,21 @@ def rule_part(run):
             check_formula(run, key2, fi, None, '%s.thickness' % lay, 'an unrefined layer does not keep its thickness',
                           node=uns[0].value.args[0])
         else: run.unknown(key2, 'branch not recognised', where=fi.where(br))
-    check_formula(run, 'mulgrid.refine_layers :: top elevation preserved', fi, 'top_elevation', 'self.layerlist[0].top',
-                  'layers are not rebuilt from the old top elevation')
-    run.shape('self.add_layers(thicknesses, top_elevation, ' in txt, 'mulgrid.refine_layers :: rebuilt by add_layers(thicknesses, top_elevation)',
-              'call not recognised', where=fi.where())
+    # the rebuilt stack starts from the old top elevation: second argument of the add_layers() call, through the locals it is held in
+    kt = 'mulgrid.refine_layers :: top elevation preserved'
+    al = [c for c in walk_no_nested(fi.node) if isinstance(c, ast.Call) and call_name(c) == 'add_layers' and isinstance(c.func, ast.Attribute)
+          and norm(c.func.value) == 'self' and len(c.args) >= 2]
+    run.shape(len(al) == 1, 'mulgrid.refine_layers :: rebuilt by add_layers(thicknesses, top_elevation)', 'call not recognised', where=fi.where())
+    if len(al) == 1:
+        top = roles.inline_locals(al[0].args[1], [st for st in fi.node.body])
+        r = compare(top, 'self.layerlist[0].top', ['self.layerlist[0].bottom'])      # (equal for the first layer: identify_layer_tops)
+        if r == 'equal': run.ok(kt, norm(top), where=fi.where(al[0]))
+        elif isinstance(top, ast.Attribute) and norm(top.value) == 'self.layerlist[0]':
+            run.violated(kt, 'the layers are rebuilt downwards from `%s`, not from the top of the layer structure (the first layer\'s top = bottom): in a '
+                         'geometry whose first layer has a centre different from its bottom (legal in the file format) the whole stack shifts while the '
+                         'column surfaces stay, so the rock volume changes' % norm(top), where=fi.where(al[0]), robust=True)
+        elif r == 'different': run.violated(kt, 'layers are rebuilt from `%s`' % norm(top), where=fi.where(al[0]))
+        else: run.unknown(kt, 'top elevation `%s`' % norm(top), where=fi.where(al[0]))
     # the old atmosphere layer name is read before the layers are cleared and either handed to add_layers as the surface
     # layer name or restored by rename_layer afterwards (role of the variable: assigned self.layerlist[0].name)
     saved = [nm for nm, v, st in roles.assignments(fi.node) if norm(v) == 'self.layerlist[0].name']
@@ -548,9 +670,8 @@ def rule_part(run):
     run.shape(sorted(norm(c) for c in lc) == ['layer(name, z, centre)', 'layer(surfacelayername, z, z)'],
               'mulgrid.add_layers :: layer(name, bottom=z, centre)', 'layer constructions are %s' % [norm(c) for c in lc], where=al.where())
     lt = prog.func('mulgrids.mulgrid.identify_layer_tops')
-    t3 = norm(lt.node)
-    run.shape(cnorm_block('for i, this in enumerate(self.layerlist[1:]):\n    above = self.layerlist[i]\n    this.top = above.bottom') in t3,
-              'mulgrid.identify_layer_tops :: top = bottom of the layer above', 'idiom not recognised', where=lt.where())
+    from .laytops import laytops_rule
+    laytops_rule(run, lt)
     th = prog.func('mulgrids.layer.get_thickness')
     check_return(run, 'layer.thickness :: top - bottom', th, 'self.top - self.bottom', 'thickness is not top - bottom')
 
@@ -666,6 +787,10 @@ def rule_nonetest(run):
 def check(run):
     run.guarded('NONETEST', rule_nonetest)
     run.guarded('ANGIDX', rule_angle_index)
+    # split_column picks the connections to hand over from the neighbour sets left by earlier edits: a one-sided set there
+    # leaves a connection between two columns that no longer share an edge
+    from .c10 import rule_nbrsym
+    run.guarded('NBRSYM', lambda r: rule_nbrsym(r, only=('split_column', 'add_connection', 'delete_connection'), floor=1))
     run.guarded('TILE', rule_tile)
     run.guarded('DISPATCH', rule_dispatch)
     run.guarded('DECOMP', rule_decomp_dispatch)
